@@ -225,3 +225,16 @@ def check_cached_function_key(ctx, rule='A8k'):
 
 def names_of(e):
     return {x.id for x in ast.walk(e) if isinstance(x, ast.Name)}
+
+
+def check_unconditional_recompute(ctx, fn_key, attr, rule='A5r'):
+    """A derived-state attribute is re-assigned on *every* normal path of its recompute function (a path that
+    skips the assignment leaves the value computed for an earlier state in place)."""
+    fn = ctx.fn(fn_key)
+    cfg = build_cfg(fn)
+    stores = [n for n in cfg.nodes if n.kind == 'stmt' and isinstance(n.ast, (ast.Assign, ast.AnnAssign)) and
+              any(is_self_attr(t, attr) for t in (n.ast.targets if isinstance(n.ast, ast.Assign) else [n.ast.target]))]
+    return guards.check_passes(ctx, rule, fn, [cfg.exit], stores, f'always-reassigns:{attr}',
+                               f'`self.{attr}` is derived state: {fn.qualname} re-assigns it on every normal path '
+                               f'(also when the new value is "no restriction"), so that no value computed for an '
+                               f'earlier state survives')
